@@ -76,6 +76,20 @@ type Case struct {
 	ID    int    `json:"id"`
 	Specs []Spec `json:"specs"`
 	Order string `json:"order"` // fwd: late, getters, setters, mix, sib, Total; rev: the reverse
+	// Pre: declarations written in the class file BEFORE the var block: "", "const", "type", "const+type"
+	Pre string `json:"pre,omitempty"`
+}
+
+// preamble renders the declarations that precede the var block (package-level in both forms).
+func (k Case) preamble() string {
+	var sb strings.Builder
+	if strings.Contains(k.Pre, "const") {
+		fmt.Fprintf(&sb, "const kc%d = %d\n\n", k.ID, 3)
+	}
+	if strings.Contains(k.Pre, "type") {
+		fmt.Fprintf(&sb, "type hp%d struct {\n\tv int\n}\n\n", k.ID)
+	}
+	return sb.String()
 }
 
 func (k Case) class() string { return fmt.Sprintf("K%d", k.ID) }
@@ -205,6 +219,7 @@ func (k Case) methods() []method {
 // goxFile renders the class file.
 func goxFile(k Case) string {
 	var sb strings.Builder
+	sb.WriteString(k.preamble())
 	sb.WriteString("var (\n")
 	for _, s := range k.Specs {
 		if len(s.Names) == 0 {
@@ -227,6 +242,7 @@ func goxFile(k Case) string {
 // structForm renders the explicit struct form in plain Go.
 func structForm(k Case) string {
 	var sb strings.Builder
+	sb.WriteString(k.preamble())
 	fmt.Fprintf(&sb, "type %s struct {\n", k.class())
 	for _, f := range k.fields() {
 		if f.embedded {
@@ -524,6 +540,26 @@ func judge(k Case, p prep, r *progs.UnitResult) *engine.Failure {
 // ---- enumeration ----
 
 func enumerate(thorough bool) []Case {
+	base := enumerateLayouts(thorough)
+	cases := base
+	// declarations in front of the var block: the fields must still be found
+	for _, k := range base {
+		if k.Order != "fwd" || (!thorough && len(k.Specs) > 1) {
+			continue
+		}
+		for _, pre := range []string{"const", "type", "const+type"} {
+			if !thorough && pre == "const+type" {
+				continue
+			}
+			kk := k
+			kk.ID, kk.Pre = len(cases), pre
+			cases = append(cases, kk)
+		}
+	}
+	return cases
+}
+
+func enumerateLayouts(thorough bool) []Case {
 	var cases []Case
 	add := func(specs []Spec, order string) {
 		cases = append(cases, Case{ID: len(cases), Specs: specs, Order: order})
@@ -684,7 +720,7 @@ func main() {
 	}
 	c.Extra["methods_checked_by_go_types"] = nMethods
 	c.Extra["output_lines_compared"] = nLines
-	c.Rule = "field types {int,string,[]int,map[string]int,*Other}; layouts: every type sequence of length 1..3 with one name per spec (155), the grouped forms `a, b T` / `a T; b, c T` / `a, b, c T` wherever adjacent types are equal (60), an embedded field (Base or *Other) alone, before or after one plain field (22); every class declares: late() reading the field declared last (first func of the file), a getter and a setter per plain field, mix(p int, q string) (int, string) over all fields, sib(d int) calling mix, the first setter, late and the first getter, Total() called as property x.total; method order forward and reversed; the driver constructs &K{field: value...}, calls every method, reads the fields back after every setter, and calls a setter on an addressable value. quick: lengths 1..2 complete, length 3 thinned, reversed order only for length 1 and grouped pairs. distinct_nontrivial = every class (all have at least one field and six methods)"
+	c.Rule = "field types {int,string,[]int,map[string]int,*Other}; layouts: every type sequence of length 1..3 with one name per spec (155), the grouped forms `a, b T` / `a T; b, c T` / `a, b, c T` wherever adjacent types are equal (60), an embedded field (Base or *Other) alone, before or after one plain field (22); every class declares: late() reading the field declared last (first func of the file), a getter and a setter per plain field, mix(p int, q string) (int, string) over all fields, sib(d int) calling mix, the first setter, late and the first getter, Total() called as property x.total; method order forward and reversed; const and/or type declarations in front of the var block (small layouts); the driver constructs &K{field: value...}, calls every method, reads the fields back after every setter, and calls a setter on an addressable value. quick: lengths 1..2 complete, length 3 thinned, reversed order only for length 1 and grouped pairs. distinct_nontrivial = every class (all have at least one field and six methods)"
 	c.Assumptions = []string{
 		"oracle (a): the reference is plain Go with `type K struct{...}` and `func (this *K) m(...)` whose bodies are the class bodies with `this.` before every field and sibling reference; both programs are built by the Go toolchain (go 1.23 module) and run with GOMAXPROCS=1",
 		"oracle (b): go/parser + go/types (package fmt reduced to Println, any other import loaded by the \"source\" importer) over the Go text produced by the compiler for the package {K.gox, main.xgo}; fields compared by name, types.TypeString, embedded flag and order; methods by name, receiver (*K, named this) and signature",
